@@ -24,7 +24,7 @@ from gens.jose import ALL_JWS
 from ref import jws as rjws, jwe as rjwe, b64 as rb, keys as rk, selftest
 
 LEVEL = "exploration"
-RULE = ("(a) operations from a pool of 70 (sign/verify HS256 with two different keys, ES256, EdDSA, RS256 compact and JSON, key-set signing "
+RULE = ("(a) operations from a pool of 72 (sign/verify HS256 with two different keys, ES256, EdDSA, RS256 compact and JSON, key-set signing "
         "with random pick, A128KW / ECDH-ES / dir encrypt and decrypt, jwt encode/decode, thumbprint, ensure_kid, KeySet([...]), "
         "KeySet.as_dict, public export, PEM export, per-call allow-lists, caller registries, PBES2 with the right / a wrong password, CBC-HS / ChaCha20 / GCMKW / ECDH-1PU messages, compressed (DEF) messages with two different plaintexts, keys carrying use / key_ops) run pairwise in two threads over shared Key / KeySet / registry objects rebuilt from "
         "stored material for every schedule (lazy initialisation is raced every time); the tracer switches threads only at the "
@@ -78,6 +78,8 @@ def material():
     tok["hs_k2"] = rjws.make_compact(b'{"alg":"HS256"}', b"payload-2", "HS256", ref["oct2"])
     tok["es"] = rjws.make_compact(b'{"alg":"ES256"}', b"payload-es", "ES256", ref["ec"])
     tok["es_kid"] = rjws.make_compact(json.dumps({"alg": "ES256", "kid": M["tp"]["ec"]}).encode(), b"payload-kid", "ES256", ref["ec"])
+    tok["es2_kid"] = rjws.make_compact(json.dumps({"alg": "ES256", "kid": M["tp"]["ec2"]}).encode(), b"payload-kid-ec2", "ES256", ref["ec2"])
+    tok["hs2_kid"] = rjws.make_compact(json.dumps({"alg": "HS256", "kid": M["tp"]["oct2"]}).encode(), b"payload-kid-oct2", "HS256", ref["oct2"])
     tok["ed"] = rjws.make_compact(b'{"alg":"EdDSA"}', b"payload-ed", "EdDSA", ref["ed"])
     tok["rs"] = rjws.make_compact(b'{"alg":"RS256"}', b"payload-rs", "RS256", ref["rsa"])
     tok["hs512"] = rjws.make_compact(b'{"alg":"HS512"}', b"payload-512", "HS512", ref["oct1"])
@@ -308,6 +310,17 @@ def op_keyset_verify_kid(G):
     from joserfc import jws
     from joserfc.jwk import KeySet
     return jws.deserialize_compact(material()["tok"]["es_kid"], KeySet([G.ecpub, G.oct2])).payload.decode()
+
+
+def op_shared_keyset_verify_ec(G):
+    from joserfc import jws
+    # the long-lived shared set resolves the key by the token's kid
+    return jws.deserialize_compact(material()["tok"]["es2_kid"], G.ks, algorithms=["ES256", "HS256"]).payload.decode()
+
+
+def op_shared_keyset_verify_oct(G):
+    from joserfc import jws
+    return jws.deserialize_compact(material()["tok"]["hs2_kid"], G.ks, algorithms=["ES256", "HS256"]).payload.decode()
 
 
 def op_shared_keyset_dict(G):
@@ -635,7 +648,7 @@ def op_pp_sign_b(G):
 
 
 OPS = {f.__name__[3:]: f for f in [
-    op_pp_kid_a, op_pp_kid_b, op_pp_sign_b, op_encrypt_json_kw, op_encrypt_json_kw_b, op_decrypt_c20p_list_and_registry, op_decrypt_c20p_registry_only,
+    op_shared_keyset_verify_ec, op_shared_keyset_verify_oct, op_pp_kid_a, op_pp_kid_b, op_pp_sign_b, op_encrypt_json_kw, op_encrypt_json_kw_b, op_decrypt_c20p_list_and_registry, op_decrypt_c20p_registry_only,
     op_encrypt_kw_zip, op_encrypt_kw_zip_b, op_decrypt_kw_zip, op_decrypt_kw_zip_b,
     op_encrypt_kw_foreign_header, op_decrypt_pbes2_default_registry, op_sigkey_first_use_sign, op_sigkey_encrypt_refused, op_sigkey_keyset, op_sigkey_export,
     op_read_kid, op_custom_registry_sign, op_sign_unregistered_header, op_custom_jwe_registry, op_encrypt_unregistered_header,
@@ -651,7 +664,7 @@ TOUCH = {"sigkey_first_use_sign": {"ec_sig"}, "sigkey_encrypt_refused": {"ec_sig
          "encrypt_kw_foreign_header": {"A128GCM", "A128KW"}, "read_kid": {"ec", "ed"}, "sign_es": {"ec"}, "verify_es_private_obj": {"ec"}, "keyset_new": {"ec", "ed"}, "keyset_sign_pick": {"ec", "oct2"}, "thumbprint": {"ec", "ed", "oct1"},
          "ensure_kid": {"ec"}, "export_public": {"ec", "ed"}, "decrypt_ecdh": {"ec"}, "sign_ed": {"ed"}, "export_pem": {"ec"},
          "sign_hs_k1": {"HS256"}, "sign_hs_k2": {"HS256"}, "verify_hs_k1": {"HS256"}, "verify_hs_wrongkey": {"HS256"}, "verify_hs_k2": {"HS256"}, "jwt_roundtrip": {"HS256"},
-         "shared_keyset_sign": {"ks"}, "shared_keyset_dict": {"ks"},
+         "shared_keyset_sign": {"ks"}, "shared_keyset_dict": {"ks"}, "shared_keyset_verify_ec": {"ks"}, "shared_keyset_verify_oct": {"ks"},
          # shared built-in algorithm objects
          "encrypt_kw": {"A128GCM", "A128KW"}, "encrypt_ecdh": {"A128GCM"}, "decrypt_kw": {"A128GCM", "A128KW"}, "decrypt_dir": {"A128GCM"}, "decrypt_ecdh": {"A128GCM"},
          "custom_jwe_registry": {"A128GCM", "A128KW"}, "custom_registry_sign": {"HS256"}, "sign_unregistered_header": {"HS256"},
@@ -676,7 +689,7 @@ CORE = ["sign_hs_k1", "sign_hs_k2", "verify_hs_k1", "verify_hs_wrongkey", "sign_
         "verify_hs256_list", "verify_hs512_under_hs256_list", "verify_hs512_list", "decrypt_pbes2_right", "decrypt_pbes2_wrong",
         "verify_hs_registry_and_list", "verify_es_registry", "encrypt_kw_cbc", "decrypt_kw_cbc", "decrypt_kw_b", "decrypt_kw_cbc_b",
         "decrypt_kw_c20p", "decrypt_kw_c20p_b", "encrypt_gcmkw", "encrypt_1pu_kw", "decrypt_1pu_kw", "decrypt_1pu_kw_b",
-        "encrypt_kw_zip", "encrypt_kw_zip_b", "decrypt_kw_zip", "decrypt_kw_zip_b", "pp_kid_a", "pp_kid_b", "pp_sign_b",
+        "encrypt_kw_zip", "encrypt_kw_zip_b", "decrypt_kw_zip", "decrypt_kw_zip_b", "pp_kid_a", "pp_kid_b", "pp_sign_b", "shared_keyset_verify_ec", "shared_keyset_verify_oct",
         "encrypt_json_kw", "encrypt_json_kw_b", "decrypt_c20p_list_and_registry", "decrypt_c20p_registry_only"]
 
 
@@ -983,6 +996,19 @@ def run_shard(ctx, spec):
                              sample={"A": a, "B": b, "preempt_A_after_lines": i, "lines": steps} if (i + len(a)) % 97 == 0 else None)
                     for k, w in f.items():
                         ctx.finding(k, w + f" [schedule: {a} runs {i} lines, then {b} to completion, then {a} resumes]", {"a": a, "b": b, "schedule": {"kind": "one", "i": i}})
+                if hot:
+                    # many preemptions: the two calls alternate every r lines (after a head start), which reaches states that need
+                    # two or three switches at particular places (one call invalidating what the other has just built)
+                    for r in (1, 3):
+                        for start in range(offset % 3, 31, 3):
+                            sched = [(0, start)] + [(1, r), (0, r)] * 600
+                            f, switched, steps = run_schedule(a, b, sched)
+                            ctx.count("schedules")
+                            ctx.count("schedules:alternating")
+                            ctx.case((a, b, "alt", r, start), nontrivial=switched, cls=None)
+                            for k, w in f.items():
+                                ctx.finding(k, w + f" [schedule: {a} runs {start} lines, then the calls alternate every {r} lines]",
+                                            {"a": a, "b": b, "schedule": {"kind": "alt", "r": r, "start": start}})
         drive(ctx, "sched", st.integers(0, 10**6), body, 1)
     elif spec["part"] == "multi":
         strat = st.tuples(st.sampled_from(names), st.sampled_from(names), st.lists(st.integers(0, 1), min_size=20, max_size=400))
@@ -1068,6 +1094,7 @@ def replay(rec) -> dict:
     if "stress" in rec:
         return {}     # non-deterministic: not replayable
     sch = rec["schedule"]
-    sched = [(0, sch["i"]), (1, None)] if sch["kind"] == "one" else [tuple(x) for x in sch["rle"]]
+    sched = [(0, sch["i"]), (1, None)] if sch["kind"] == "one" else ([(0, sch["start"])] + [(1, sch["r"]), (0, sch["r"])] * 600) if sch["kind"] == "alt" else \
+        [tuple(x) for x in sch["rle"]]
     f, _, _ = run_schedule(rec["a"], rec["b"], sched)
     return f
